@@ -262,6 +262,18 @@ func fetchAuthOutput(input OmegaInput, enc *types.Encoder) ([]byte, error) {
 	return val, nil
 }
 
+// extrinsicData returns the extrinsic blob that a work item names by (hash, length): fetch selectors 3 and 4 yield the
+// data itself (x-bar), not the item's specification of it. nil (answered NONE) if the blob was not supplied.
+func extrinsicData(input OmegaInput, spec types.ExtrinsicSpec) []byte {
+	data, ok := input.Addition.ExtrinsicDataMap[spec.Hash]
+	if !ok {
+		return nil
+	}
+	val := make([]byte, len(data))
+	copy(val, data)
+	return val
+}
+
 func fetchExtrinsicAt(input OmegaInput, enc *types.Encoder) ([]byte, error) {
 	if len(input.Addition.Extrinsics) == 0 {
 		return nil, nil
@@ -274,12 +286,7 @@ func fetchExtrinsicAt(input OmegaInput, enc *types.Encoder) ([]byte, error) {
 	if w12 >= uint64(len(input.Addition.Extrinsics[w11])) {
 		return nil, nil
 	}
-	val, err := enc.Encode(&input.Addition.Extrinsics[w11][w12])
-	if err != nil {
-		pvmLogger.Errorf("fetch host-call case 3 encode error: %v", err)
-		return nil, err
-	}
-	return val, nil
+	return extrinsicData(input, input.Addition.Extrinsics[w11][w12]), nil
 }
 
 func fetchExtrinsicForWorkItem(input OmegaInput, enc *types.Encoder) ([]byte, error) {
@@ -291,12 +298,7 @@ func fetchExtrinsicForWorkItem(input OmegaInput, enc *types.Encoder) ([]byte, er
 	if w11 >= uint64(len(input.Addition.Extrinsics[i])) {
 		return nil, nil
 	}
-	val, err := enc.Encode(&input.Addition.Extrinsics[i][w11])
-	if err != nil {
-		pvmLogger.Errorf("fetch host-call case 4 encode error: %v", err)
-		return nil, err
-	}
-	return val, nil
+	return extrinsicData(input, input.Addition.Extrinsics[i][w11]), nil
 }
 
 func fetchImportSegmentAt(input OmegaInput, enc *types.Encoder) ([]byte, error) {
